@@ -74,6 +74,8 @@ var (
 	// first Sleep; Thawed[group] releases the frozen threads of that group.
 	Frozen func(name string) bool
 	Thawed = map[string]bool{}
+	// Paused[group]: the threads of that group are not scheduled (SIGSTOP).
+	Paused = map[string]bool{}
 
 	Crashes  []Crash
 	Deadlock string
@@ -94,6 +96,7 @@ func Reset() {
 	Clock = 0
 	Points = 0
 	Thawed = map[string]bool{}
+	Paused = map[string]bool{}
 	vchans = map[interface{}]*vchan{}
 	Abort = false
 	On = false
@@ -129,6 +132,9 @@ func Sig() uint64    { return sig }
 func NumThreads() int { return len(threads) }
 
 func (t *Thread) isEnabled() bool {
+	if Paused[t.Group] {
+		return false
+	}
 	switch t.st {
 	case runnable:
 		return true
@@ -179,6 +185,9 @@ func schedule() {
 		if len(en) == 0 {
 			var min int64 = -1
 			for _, t := range threads {
+				if Paused[t.Group] {
+					continue
+				}
 				if (t.st == sleeping || (t.st == blocked && t.until >= 0)) && (min < 0 || t.until < min) {
 					min = t.until
 				}
